@@ -24,6 +24,7 @@ def run(ctx):
                 "(a, b, k) rows judged; non-trivial = the insert is not the first one / the row crosses the wrap or the half-ring boundary")
     M_code = int(C.SeqNum._max_sequence)
     ring_laws(ctx)
+    apalache_ring(ctx)
     window_model(ctx)
     replay_transitions(ctx, C, M_code)
     replay_walks(ctx, C, M_code)
@@ -39,6 +40,31 @@ def ring_laws(ctx):
         r = ctx.mc("MC_SeqRing", cfg, label="MC_SeqRing M=%d" % M)
         if not r.ok:
             ctx.fail("ring law %s fails for M=%d" % (r.violation["name"], M), dict(trace=r.trace))
+
+
+def apalache_ring(ctx):
+    """The same laws at the real ring size for ALL positions at once, symbolically (Apalache + Z3, specs/ApaSeqRing.tla).  Reported separately;
+    a tool failure or time-out is a note, not a verdict (DESIGN.md section 5)."""
+    import subprocess, shutil, tempfile, time
+    if not shutil.which("apalache-mc"):
+        ctx.note("apalache-mc not found: symbolic ring-law check skipped")
+        return
+    out = tempfile.mkdtemp(prefix="apa-", dir=T.WORK_ROOT if os.path.isdir(T.WORK_ROOT) else None)
+    t0 = time.time()
+    try:
+        p = subprocess.run(["apalache-mc", "check", "--init=Init", "--next=Next", "--inv=All", "--length=0", "--out-dir=" + out, os.path.join(T.SPECS, "ApaSeqRing.tla")],
+                           stdout=subprocess.PIPE, stderr=subprocess.STDOUT, timeout=420, cwd=out)
+        txt = p.stdout.decode("utf-8", "replace")
+        if "The outcome is: NoError" in txt:
+            ctx.extra["apalache_ring_laws"] = "NeverZero, AddExact, DiffExact, OrderExact hold for all positions p, q in three laps with |p-q| <= 32767 and all k in 0..65535 at M = 65535 (symbolic, %.0f s)" % (time.time() - t0)
+        elif "The outcome is: Error" in txt:
+            ctx.fail("ring laws refuted symbolically by Apalache at M=65535 (specs/ApaSeqRing.tla)", dict(output=txt[-1500:]))
+        else:
+            ctx.note("Apalache gave no verdict (%s)" % txt[-200:].replace("\n", " "))
+    except subprocess.TimeoutExpired:
+        ctx.note("Apalache timed out after 420 s: symbolic ring-law check skipped")
+    finally:
+        shutil.rmtree(out, ignore_errors=True)
 
 
 # ------------------------------------------------------------------ design: window vs mathematical ghost
